@@ -299,6 +299,9 @@ type group struct {
 func inputOf(it *item) map[string]any {
 	j := it.job
 	in := map[string]any{"family": it.family, "tag": j.Tag, "buffer_size": it.cap, "sink": j.Sink, "cancel": j.Cancel, "to_go_html": j.HTML, "env": j.Env}
+	if j.Reuse {
+		in["same_destination_value_as_previous_direct_render"] = true
+	}
 	if it.prev != nil {
 		in["previous_render_in_same_process"] = map[string]any{"tag": it.prev.job.Tag, "sink": it.prev.job.Sink, "result": it.prev.obs.Res}
 	}
@@ -791,6 +794,18 @@ func (k *checker) sweep(family string, cap int, progID string, model *run.Node, 
 				j.Tag = fmt.Sprintf("%s mode=%d offset=%d", progID, m, off)
 				k.add(family, cap, progID, model, j)
 				n++
+				// the SAME destination value again, healed (or failing somewhere else): a retry on the same
+				// connection / recorder object after a failed render, drawing the same pooled buffer
+				if m == 1 || n%3 == 0 {
+					jr := mk()
+					jr.Reuse = true
+					jr.Sink = run.SinkSpec{Mode: 0, SW: sk.sw, Flusher: sk.fl}
+					if r.Intn(6) == 0 && len(offs) > 0 {
+						jr.Sink.Mode, jr.Sink.Limit, jr.Sink.ErrID = 1+r.Intn(3), offs[r.Intn(len(offs))], 10+r.Intn(9)
+					}
+					jr.Tag = fmt.Sprintf("%s same destination value again after mode=%d offset=%d", progID, m, off)
+					k.add(family, cap, progID, model, jr)
+				}
 				if n%7 == 0 {
 					j2 := mk()
 					j2.Sink = run.SinkSpec{Mode: 0, SW: sk.sw, Flusher: sk.fl}
@@ -803,6 +818,12 @@ func (k *checker) sweep(family string, cap int, progID string, model *run.Node, 
 					j3.Sink = run.SinkSpec{Mode: 0, SW: sk.sw, Flusher: sk.fl}
 					j3.Tag = progID + " ToGoHTML after a failed render"
 					k.add(family, cap, progID, model, j3)
+					// ... and the failed render's destination value once more after the ToGoHTML in between
+					j4 := mk()
+					j4.Reuse = true
+					j4.Sink = run.SinkSpec{Mode: 0, SW: sk.sw, Flusher: sk.fl}
+					j4.Tag = fmt.Sprintf("%s same destination value again after a ToGoHTML following mode=%d offset=%d", progID, m, off)
+					k.add(family, cap, progID, model, j4)
 				}
 			}
 		}
@@ -820,7 +841,8 @@ func Run(c *core.Ctx) {
 		"destination writers never report more bytes than offered (otherwise bufio panics); termination additionally needs: a call that returns a nil error accepts at least one byte (io.Writer demands n<len => err!=nil) - without it bufio's large-write loop spins, reproduced as C10_spin_witness",
 		"TEMPL_DEV_MODE is off (runtime/watchmode.go WriteString then is io.WriteString)",
 		"Go expressions and hand-written components are opaque: an expression yields (string, error); a hand-written component writes/returns as scripted, checks every write error and does not retain the writer",
-		"a render's context does not change state during the render")
+		"a render's context does not change state during the render",
+		"a destination value used again by a later render is modelled as a destination in the state it then has (its own record of accepted bytes starting empty)")
 	c.Proofs()
 	c.Oblige("side-condition", "TEMPL_DEV_MODE is not set in the check's environment", os.Getenv("TEMPL_DEV_MODE") == "", "")
 
